@@ -8,6 +8,9 @@ import (
 	"os"
 	"sync"
 
+	"github.com/alicebob/sqlittle"
+	sdb "github.com/alicebob/sqlittle/db"
+
 	"verifharness/hx"
 )
 
@@ -82,6 +85,7 @@ func C12(run *hx.Run) {
 		}()
 	}
 	wg.Wait()
+	c12Splice(run)
 	if run.Seen("op_kind", "IndexedSelect") == 0 || run.Seen("op_kind", "Select") == 0 {
 		run.Inconclusive("operation catalogue lacks Select/IndexedSelect")
 	}
@@ -177,5 +181,121 @@ func c12One(run *hx.Run, data []byte, o op, pi int, dbname string, maxR int64) {
 	run.Count("fault_free_reads_total", int(R))
 	if R > 3 {
 		run.Sample(hx.M{"db": dbname, "op": o.name, "reads": R, "rows": len(ref.rows), "faulted_runs": 2 * R})
+	}
+}
+
+
+// c12Splice: "any structure is found to be corrupt": an index that still has
+// entries for rows the table lost (index pages from before a DELETE, everything
+// else from after it). Success must mean a correct result: no duplicated row,
+// and only rows the table has.
+func c12Splice(run *hx.Run) {
+	o := mustOracle(run)
+	if o == nil {
+		return
+	}
+	defer o.Close()
+	dir, cleanup := hx.ScratchDir("C12splice")
+	defer cleanup()
+	for ci, ps := range []int{512, 1024, 4096} {
+		d, err := hx.BuildDB(o, dir, fmt.Sprintf("sp%d", ci), hx.M{"page_size": ps, "rows": 200, "features": []string{"plain", "alias", "wr", "wr2"}}, run.Seed*23+int64(ci))
+		if err != nil {
+			run.Inconclusive("splice corpus: " + err.Error())
+			return
+		}
+		A, _ := os.ReadFile(d.Path)
+		if err := o.Exec(d.Path, "DELETE FROM t_wr WHERE (c % 3) = 1", "DELETE FROM t_plain WHERE (rowid % 4) = 2", "DELETE FROM t_alias WHERE (id % 3) = 0", "DELETE FROM t_wr2 WHERE n > 4"); err != nil {
+			run.Inconclusive("splice delete: " + err.Error())
+			return
+		}
+		B, _ := os.ReadFile(d.Path)
+		for _, t := range d.Meta.Tables {
+			if t.Name != "t_wr" && t.Name != "t_plain" && t.Name != "t_alias" && t.Name != "t_wr2" {
+				continue
+			}
+			// the table's current rows, by their full content
+			cols := t.ColNames()
+			want, err := o.Query(d.Path, fmt.Sprintf("SELECT %s FROM %s", selectList(cols), hx.QuoteIdent(t.Name)))
+			if err != nil {
+				run.Inconclusive("splice reference: " + err.Error())
+				continue
+			}
+			have := map[string]int{}
+			for _, r := range want {
+				have[hx.RowKey(r)]++
+			}
+			for _, ix := range t.Indexes {
+				if t.WR != 0 && ix.Origin == "pk" {
+					continue
+				}
+				pages, err := hx.WalkTree(A, ps, ix.Root)
+				if err != nil {
+					continue
+				}
+				fromA := map[int]bool{}
+				for _, p := range pages {
+					fromA[p.No] = true
+					for _, c := range p.Cells {
+						if c.OvflOff > 0 {
+							for _, op := range hx.OverflowChain(A, ps, c.Overflow) {
+								fromA[op] = true
+							}
+						}
+					}
+				}
+				sp := &hx.SplicePager{A: A, B: B, FromA: fromA}
+				low, err := sdb.VerifOpenPager(sp, "")
+				if err != nil {
+					continue
+				}
+				db := sqlittle.VerifWrap(low)
+				var got []hx.Row
+				var serr error
+				p, pm := safely(func() {
+					serr = db.IndexedSelect(t.Name, ix.Name, func(r sqlittle.Row) { got = append(got, hx.CloneRow(r)) }, cols...)
+				})
+				run.Eval(1)
+				run.Distinct(fmt.Sprintf("splice/%d/%s", ps, ix.Name))
+				key := "C12/splice/IndexedSelect/" + tableKind(&t)
+				switch {
+				case p:
+					run.Violation(key+"/panic", "IndexedSelect panicked on a spliced database: "+pm, nil)
+				case serr != nil:
+					run.See("splice_outcome", "error: "+serr.Error())
+				default:
+					seen := map[string]int{}
+					bad := ""
+					for _, r := range got {
+						k := hx.RowKey(hx.Row(r))
+						seen[k]++
+						if have[k] == 0 {
+							// compare under the documented integral-REAL normalisation as well
+							found := false
+							for _, w := range want {
+								if hx.RowEqualDoc(w, r) {
+									found = true
+									break
+								}
+							}
+							if !found {
+								bad = fmt.Sprintf("delivered a row the table does not have: %s", hx.RowString(r))
+								break
+							}
+						} else if seen[k] > have[k] {
+							bad = fmt.Sprintf("delivered the row %s %d times, the table has it %d time(s)", hx.RowString(r), seen[k], have[k])
+							break
+						}
+					}
+					if bad == "" && len(got) != len(want) {
+						bad = fmt.Sprintf("delivered %d rows with a nil error, the table has %d and the index (from before the DELETE) has more entries", len(got), len(want))
+					}
+					if bad != "" {
+						run.Violation(key+"/silent", fmt.Sprintf("index %s still holds entries of deleted rows (page size %d): IndexedSelect returned err=nil but %s", ix.Name, ps, bad), hx.M{"index": ix.Name, "page_size": ps})
+					} else {
+						run.See("splice_outcome", "success-and-consistent")
+					}
+				}
+			}
+		}
 	}
 }
